@@ -657,6 +657,20 @@ func (a *fnAnalysis) loopCap(li *loopInfo, st *rstate) int {
 			_, isC := val.isConst()
 			return isC
 		}
+		// a bound that is re-read in the loop from a variable that lives in a cell (captured by a closure) and is
+		// assigned a constant once
+		if ld, ok := v.(*ssa.UnOp); ok && ld.Op == token.MUL {
+			switch cell := ld.X.(type) {
+			case *ssa.FreeVar:
+				_, isC := a.capturedRange(cell).isConst()
+				return isC
+			case *ssa.Alloc:
+				if sv := soleStoredValue(cell); sv != nil {
+					_, isC := a.get(st, sv).isConst()
+					return isC
+				}
+			}
+		}
 		return false
 	}
 	for b := range li.body {
@@ -2251,7 +2265,10 @@ func phiOfCall(phi *ssa.Phi) string {
 // isSearchHelper: an unexported function of a (string, []string) pair, in either order, that returns
 // the loop counter of a linear scan where it finds the string, and the constant 0 otherwise.
 func isSearchHelper(fn *ssa.Function) bool {
-	if fn.Object() == nil || fn.Object().Exported() || len(fn.Params) < 1 || len(fn.Params) > 2 || fn.Signature.Results().Len() != 1 || !isIntType(fn.Signature.Results().At(0).Type()) {
+	if fn.Object() == nil && fn.Parent() == nil {
+		return false
+	}
+	if (fn.Object() != nil && fn.Object().Exported()) || len(fn.Params) < 1 || len(fn.Params) > 2 || fn.Signature.Results().Len() != 1 || !isIntType(fn.Signature.Results().At(0).Type()) {
 		return false
 	}
 	nStr, nSl := 0, 0
